@@ -60,24 +60,47 @@ Theorem C14_scte35_roundtrip :
 Proof. exact roundtrip. Qed.
 Print Assumptions C14_scte35_roundtrip.
 
-(* the payload of scheduled event k at instant pt decodes to splice_event_id = k,
-   pts = pt*90000/timescale mod 2^33 and break_duration = duration*90000/timescale *)
+(* for EVERY schedule the service accepts (Scte35Events.check_parameters = scte35_params_ok) and every event of it -
+   any index, any instant - the payload encodes, decodes with a valid CRC and carries splice_event_id = k mod 2^32,
+   pts = pt*90000/timescale mod 2^33 and break_duration = duration*90000/timescale: no accepted request can make the
+   section encoder fail *)
 Theorem C14_payload :
   forall s pid k pt,
-  0 < e_timescale s -> 0 <= e_count s < 500 -> 0 <= k < 500 -> 0 <= pid < 65536 ->
-  0 <= e_duration s * 90000 / e_timescale s < 8589934592 ->
+  scte35_params_ok s pid = true -> 0 <= k -> (0 < e_count s -> k < e_count s) ->
   exists sig, dec_signal (enc_signal (event_signal s pid k pt)) = Some (Some sig, true) /\
     match sg_cmd sig with
-    | CInsert i => si_id i = k /\ si_pts i = Some (scte35_pts s pt) /\
+    | CInsert i => si_id i = emsg_id_field k /\ si_pts i = Some (scte35_pts s pt) /\
                    match si_break i with Some b => bd_dur b = scte35_break s | None => False end
     | _ => False
     end.
 Proof.
-  intros s pid k pt H1 H2 H3 H4 H5. exists (event_signal s pid k pt). split.
-  - apply roundtrip. apply event_signal_wf; assumption.
+  intros s pid k pt Hok Hk Hkc. exists (event_signal s pid k pt). split.
+  - apply roundtrip. unfold scte35_params_ok, params_ok in Hok.
+    repeat (apply andb_true_iff in Hok; destruct Hok as (Hok & ?)).
+    assert (0 <= e_duration s * 90000 / e_timescale s) by (apply Z.div_pos; lia).
+    apply event_signal_wf; try assumption; lia.
   - cbn. repeat split; reflexivity.
 Qed.
 Print Assumptions C14_payload.
+
+(* an accepted schedule keeps the work per segment bounded: events are at least a millisecond apart, so a segment of
+   D seconds (D * timescale event ticks) needs at most 1000 D + 3 turns of the loop of create_emsg_boxes; and every
+   field of the emsg box fits its width (32-bit timescale, duration and event id) *)
+Theorem C14_accepted_schedule_bounded :
+  forall s a b D, params_ok s = true -> 0 <= D -> a <= b -> b - a <= D * e_timescale s ->
+  Z.of_nat (ev_fuel s a b) <= 1000 * D + 3 /\
+  0 < e_timescale s < 2 ^ 32 /\ 0 <= e_duration s < 2 ^ 32 /\ forall k, 0 <= emsg_id_field k < 2 ^ 32.
+Proof.
+  intros s a b D Hok HD Hab Hlen. unfold params_ok in Hok.
+  repeat (apply andb_true_iff in Hok; destruct Hok as (Hok & ?)).
+  split; [|split; [change (2 ^ 32) with 4294967296; lia|split; [change (2 ^ 32) with 4294967296; lia|]]].
+  - unfold ev_fuel. rewrite Z2Nat.id by (assert (0 <= (b - a) / e_interval s) by (apply Z.div_pos; lia); lia).
+    assert (Hq : (b - a) / e_interval s <= 1000 * D).
+    { apply Z.div_le_upper_bound; [lia|]. nia. }
+    lia.
+  - intros k. unfold emsg_id_field. apply Z.mod_pos_bound. reflexivity.
+Qed.
+Print Assumptions C14_accepted_schedule_bounded.
 
 (* (the byte string of C14_scte35_example below is what Scte35Events.get_emsg_event_payload(3, 3000)
    returns on the real code) *)
@@ -93,9 +116,9 @@ Proof. vm_compute. repeat split; reflexivity. Qed.
 Example C14_scte35_example :
   let s := {| e_start := 0; e_interval := 1000; e_count := 0; e_timescale := 100; e_duration := 200;
               e_version := 1; e_inband := true |} in
-  wf_signal (event_signal s 1620 3 3000) /\
+  wf_signal (event_signal s 1620 3 3000) /\ scte35_params_ok s 1620 = true /\
   bits_bytes (enc_signal (event_signal s 1620 3 3000)) =
     [252; 0; 59; 0; 0; 0; 0; 0; 0; 255; 255; 240; 20; 5; 0; 0; 0; 3; 127; 239; 254; 0; 41; 50; 224; 126;
      0; 2; 191; 32; 6; 84; 0; 0; 0; 22; 2; 20; 67; 85; 69; 73; 0; 0; 0; 0; 127; 255; 0; 0; 0; 0; 0; 15; 0; 53;
      0; 0; 190; 16; 79; 0]%Z.
-Proof. split; [apply event_signal_wf; cbn; lia|]. vm_compute. reflexivity. Qed.
+Proof. split; [apply event_signal_wf; cbn; lia|]. split; vm_compute; reflexivity. Qed.
